@@ -588,7 +588,7 @@ class RDBStorage(BaseStorage, BaseHeartbeat):
         param_value_internal: float,
         distribution: distributions.BaseDistribution,
     ) -> None:
-        trial = models.TrialModel.find_or_raise_by_id(trial_id, session)
+        trial = models.TrialModel.find_or_raise_by_id(trial_id, session, for_update=True)
         self.check_trial_is_updatable(trial_id, trial.state)
 
         trial_param = models.TrialParamModel(
@@ -668,7 +668,7 @@ class RDBStorage(BaseStorage, BaseHeartbeat):
         step: int,
         intermediate_value: float,
     ) -> None:
-        trial = models.TrialModel.find_or_raise_by_id(trial_id, session)
+        trial = models.TrialModel.find_or_raise_by_id(trial_id, session, for_update=True)
         self.check_trial_is_updatable(trial_id, trial.state)
 
         (
@@ -720,7 +720,7 @@ class RDBStorage(BaseStorage, BaseHeartbeat):
         key: str,
         value: Any,
     ) -> None:
-        trial = models.TrialModel.find_or_raise_by_id(trial_id, session)
+        trial = models.TrialModel.find_or_raise_by_id(trial_id, session, for_update=True)
         self.check_trial_is_updatable(trial_id, trial.state)
 
         if self.engine.name == "mysql":
